@@ -230,19 +230,17 @@ fn single_and_double_exhaustive(idx: u64, seed: u64, ctx: &mut Ctx) -> R {
     Ok(())
 }
 
-/// every one- and two-character replacement of the human-readable part over [a-z0-9]
-/// (upper-case letters for upper-case representatives)
+/// every one- and two-character replacement of the human-readable part over [a-zA-Z0-9-_.! ]
 fn hrp_corruptions(idx: u64, seed: u64, ctx: &mut Ctx) -> R {
     let rep = rep_shape(idx, 0);
     let orig = rep_string(&rep, seed ^ 0x6872_70);
     let Some(sep) = orig.rfind('1') else {
         return Err(Failure::panic("representative without separator".into(), "src/props/c17.rs".into()));
     };
-    let alpha: Vec<u8> = if rep.upper {
-        b"ABCDEFGHIJKLMNOPQRSTUVWXYZ0123456789".to_vec()
-    } else {
-        b"abcdefghijklmnopqrstuvwxyz0123456789".to_vec()
-    };
+    // both letter cases, digits and a few other printable characters: a replacement by the other
+    // case of a letter (e.g. "LQ1qq..") must be rejected as well
+    let _ = rep.upper;
+    let alpha: Vec<u8> = b"abcdefghijklmnopqrstuvwxyzABCDEFGHIJKLMNOPQRSTUVWXYZ0123456789-_.! ".to_vec();
     let label = "one/two-character corruption of the human-readable part";
     let mut buf = orig.clone().into_bytes();
     let mut strings = 0u64;
@@ -334,7 +332,7 @@ pub fn property() -> Property {
                included) by each of the 31 other alphabet characters and EVERY pair of such replacements is parsed with \
                from_str and parse_with_params under all three parameter sets; all four must fail. Work unit (index) = \
                (representative, first corrupted position). hrp_corruptions: for all 72 shapes (x 4 payloads thorough) every 1- and 2-character \
-               replacement of the human-readable part over [a-z0-9] ([A-Z0-9] for upper-case representatives). sampled: tape-generated \
+               replacement of the human-readable part over [a-zA-Z0-9] and five other printable characters (so case changes of the HRP are included). sampled: tape-generated \
                addresses of the whole C06 domain with 1-2 random replacements. Every corrupted string is non-trivial; \
                `evaluations` counts parser calls (4 per corrupted string) and `distinct_nontrivial` counts the work units \
                (representative, first position) of the enumeration - not strings, which are counted in the histogram \
